@@ -25,6 +25,12 @@ pub enum Entry {
     FromList,
     FromNone,
     FromWord,
+    /// element-level entry points
+    DeriveInput,
+    Attributes,
+    Field(usize),
+    Variant(usize),
+    TypeParam(usize),
 }
 
 #[derive(Clone, Debug, Serialize, Deserialize, PartialEq)]
@@ -62,6 +68,21 @@ pub struct Judged {
 
 thread_local! {
     static LAST_PANIC: std::cell::RefCell<Option<String>> = std::cell::RefCell::new(None);
+    /// true while the real parser runs under catch_unwind; any other panic is a harness bug and is printed
+    static IN_PARSE: std::cell::Cell<bool> = std::cell::Cell::new(false);
+}
+
+struct InParse;
+impl InParse {
+    fn enter() -> Self {
+        IN_PARSE.with(|f| f.set(true));
+        InParse
+    }
+}
+impl Drop for InParse {
+    fn drop(&mut self) {
+        IN_PARSE.with(|f| f.set(false));
+    }
 }
 
 /// Installed once per process: silent, records message and location for the thread.
@@ -77,6 +98,9 @@ pub fn install_panic_hook() {
         } else {
             "<non-string payload>".to_string()
         };
+        if !IN_PARSE.with(|f| f.get()) {
+            eprintln!("HARNESS PANIC (outside a simulated parse): {} @ {}", msg, loc);
+        }
         LAST_PANIC.with(|p| *p.borrow_mut() = Some(format!("{} @ {}", msg, loc)));
     }));
 }
@@ -163,15 +187,57 @@ pub fn first_meta(di: &syn::DeriveInput) -> Option<&syn::Meta> {
     di.attrs.first().map(|a| &a.meta)
 }
 
+fn nth_field(di: &syn::DeriveInput, i: usize) -> Option<&syn::Field> {
+    match &di.data {
+        syn::Data::Struct(s) => s.fields.iter().nth(i),
+        _ => None,
+    }
+}
+
+fn execute_elem(sc: &Scenario, di: &syn::DeriveInput) -> Result<(Outcome, Option<darling::Error>), String> {
+    use corpus::ElemInput;
+    let input = match &sc.entry {
+        Entry::DeriveInput => ElemInput::DeriveInput(di),
+        Entry::Attributes => ElemInput::Attributes(&di.attrs),
+        Entry::Field(i) => ElemInput::Field(nth_field(di, *i).ok_or("no such field")?),
+        Entry::Variant(i) => match &di.data {
+            syn::Data::Enum(e) => ElemInput::Variant(e.variants.iter().nth(*i).ok_or("no such variant")?),
+            _ => return Err("variant entry needs an enum".into()),
+        },
+        Entry::TypeParam(i) => match di.generics.params.iter().nth(*i) {
+            Some(syn::GenericParam::Type(t)) => ElemInput::TypeParam(t),
+            _ => return Err("type-param entry needs a type parameter".into()),
+        },
+        _ => unreachable!(),
+    };
+    let r = {
+        let _g = InParse::enter();
+        catch_unwind(AssertUnwindSafe(|| corpus::run_elem_receiver(&sc.receiver, &input)))
+    };
+    Ok(match r {
+        Ok(None) => return Err(format!("unknown element receiver {} for {:?}", sc.receiver, sc.entry)),
+        Ok(Some(Ok(v))) => (Outcome::Ok(Some(v)), None),
+        Ok(Some(Err(e))) => {
+            let (len, leaves) = observe_error(&e);
+            (Outcome::Err { len, leaves }, Some(e))
+        }
+        Err(p) => (payload_outcome(p), None),
+    })
+}
+
 fn execute(sc: &Scenario, di: &syn::DeriveInput) -> Result<(Outcome, Option<darling::Error>), String> {
     let entry = match sc.entry {
         Entry::FromMeta => MetaEntry::FromMeta,
         Entry::FromList => MetaEntry::FromList,
         Entry::FromNone => MetaEntry::FromNone,
         Entry::FromWord => MetaEntry::FromWord,
+        _ => return execute_elem(sc, di),
     };
     let meta = first_meta(di).ok_or_else(|| "input has no attribute".to_string())?;
-    let r = catch_unwind(AssertUnwindSafe(|| corpus::run_meta_receiver(&sc.receiver, &entry, meta)));
+    let r = {
+        let _g = InParse::enter();
+        catch_unwind(AssertUnwindSafe(|| corpus::run_meta_receiver(&sc.receiver, &entry, meta)))
+    };
     Ok(match r {
         Ok(None) => return Err(format!("unknown receiver {}", sc.receiver)),
         Ok(Some(Ok(v))) => (Outcome::Ok(v), None),
@@ -198,6 +264,41 @@ pub fn expect(sc: &Scenario, doc: &InputDoc, recvs: &'static BTreeMap<&'static s
         let start = it.r_path.0;
         m.remote_ranges.insert(start, (start, (start.0, start.1 + first_len)));
     });
+    if matches!(sc.entry, Entry::DeriveInput | Entry::Attributes | Entry::Field(_) | Entry::Variant(_) | Entry::TypeParam(_)) {
+        use crate::input::{Body, FieldsDoc};
+        use crate::model::ElemView;
+        let view = match &sc.entry {
+            Entry::DeriveInput => ElemView { attrs: &doc.attrs, ident: Some(&doc.ident), body: Some(&doc.body), generics: &doc.generics, vfields: None },
+            Entry::Attributes => ElemView { attrs: &doc.attrs, ident: None, body: None, generics: &[], vfields: None },
+            Entry::Field(i) => match &doc.body {
+                Body::Struct(FieldsDoc::Named(fs)) | Body::Struct(FieldsDoc::Tuple(fs)) => match fs.get(*i) {
+                    Some(f) => ElemView { attrs: &f.attrs, ident: f.name.as_deref(), body: None, generics: &[], vfields: None },
+                    None => return (Expected::Value(None), m, Err("no such field".into())),
+                },
+                _ => return (Expected::Value(None), m, Err("field entry needs a struct".into())),
+            },
+            Entry::Variant(i) => match &doc.body {
+                Body::Enum(vs) => match vs.get(*i) {
+                    Some(v) => ElemView { attrs: &v.attrs, ident: Some(&v.name), body: None, generics: &[], vfields: Some(&v.fields) },
+                    None => return (Expected::Value(None), m, Err("no such variant".into())),
+                },
+                _ => return (Expected::Value(None), m, Err("variant entry needs an enum".into())),
+            },
+            Entry::TypeParam(i) => match doc.generics.get(*i) {
+                Some(t) => ElemView { attrs: &t.attrs, ident: Some(&t.name), body: None, generics: &[], vfields: None },
+                None => return (Expected::Value(None), m, Err("no such type parameter".into())),
+            },
+            _ => unreachable!(),
+        };
+        if !crate::schema::elems().contains_key(sc.receiver.as_str()) {
+            return (Expected::Value(None), m, Err(format!("element receiver {} not in schema", sc.receiver)));
+        }
+        return match m.elem_parse(&sc.receiver, &view) {
+            Err(Abort(k)) => (Expected::Panic(k), m, Ok(())),
+            Ok(Ok(v)) => (Expected::Value(Some(v)), m, Ok(())),
+            Ok(Err(ls)) => (Expected::Leaves(ls), m, Ok(())),
+        };
+    }
     let d = match recvs.get(sc.receiver.as_str()) {
         Some(d) => d.clone(),
         None => return (Expected::Value(None), m, Err(format!("receiver {} not in schema", sc.receiver))),
@@ -220,6 +321,7 @@ pub fn expect(sc: &Scenario, doc: &InputDoc, recvs: &'static BTreeMap<&'static s
             // from_word() itself: no item, hence no span layer
             m.from_word_entry(&d)
         }
+        _ => unreachable!(),
     };
     match r {
         Err(Abort(k)) => (Expected::Panic(k), m, Ok(())),
@@ -311,6 +413,10 @@ pub fn run(sc: &Scenario, recvs: &'static BTreeMap<&'static str, RecvDesc>) -> J
         items.insert(it.r_item.0, it.id);
         parts.insert(it.id, (it.r_path, it.r_value));
     });
+    input::for_each_element(&doc, &mut |id, r| {
+        items.insert(r.0, id);
+        parts.insert(id, (r, Some(r)));
+    });
     let mut tokens = BTreeMap::new();
     collect_tokens(di.to_token_stream(), &mut tokens);
     world::reset(&sc.env, items, parts, tokens);
@@ -341,7 +447,7 @@ pub fn run(sc: &Scenario, recvs: &'static BTreeMap<&'static str, RecvDesc>) -> J
     if !matches!(exp, Expected::Panic(_)) && !matches!(outcome, Outcome::Panic(_) | Outcome::SimPanic(_)) {
         let mut counts: BTreeMap<u32, u32> = BTreeMap::new();
         for c in &j.log {
-            if let (Some(id), true) = (c.item, matches!(c.hook.as_str(), "from_meta" | "with" | "from_string")) {
+            if let (Some(id), true) = (c.item, matches!(c.hook.as_str(), "from_meta" | "with" | "from_string" | "from_field")) {
                 *counts.entry(id).or_insert(0) += 1;
             }
         }
